@@ -22,9 +22,11 @@ def plan(tier, seed):
   specs = []
   for i in range(4):
     specs.append({'shard': 'fermat-%d' % i, 'n': 50 if q else 300})
-  for i in range(4):
-    specs.append({'shard': 'hilo-%d' % i, 'n': 30 if q else 150,
-                  'sizes': [256, 512, 1024] + ([] if q else [2048, 4096])})
+  # (constructing a 4096-bit modulus of this family costs about a minute)
+  for i in range(4 if q else 10):
+    specs.append({'shard': 'hilo-%d' % i, 'n': 30 if q else 45,
+                  'sizes': [256, 512, 1024] + ([] if q else [
+                      1024, 2048, 2048, 4096])})
   for i, L in enumerate([384, 512, 768, 1024] + ([] if q else [1536, 2048])):
     specs.append({'shard': 'upperdiff-%d' % L, 'L': L, 'n': 12 if q else 60,
                   'weight': 2})
@@ -100,6 +102,8 @@ def run_hilo(ctx, spec):
   rng = ctx.rng('hilo')
   chk_f, chk_h = rs.CheckFermat(), rs.CheckHighAndLowBitsEqual()
   for i in range(spec['n']):
+    if ctx.spent():
+      break
     nbits = rng.choice(spec['sizes'])
     tot = -(-nbits // 4) + 2 + rng.choice([0, 0, 1, 5, nbits // 16])
     r = rng.choice([3, 4, max(3, tot // 4), max(3, tot // 2),
